@@ -17,6 +17,7 @@ RULE = ('(a) PCM scenario driver: the real PortfolioConstructionModel on a real 
         'weights (0 where alpha is silent); after the fills holdings == non-zero targets; unweighted held assets are '
         'fully sold. Non-trivial: a rebalance with a held asset outside the alpha keys and a new asset; distinct = case.')
 RULE += ' Half of the driver cases rebalance through a real QuantTradingSystem (portfolio construction + ExecutionHandler submitting the orders); a rebalance request that runs no portfolio construction, or raises, is a violation. 30% of the cases start with several positions of exactly the same size.'
+RULE += " After every portfolio construction the broker's holdings report is read before anything is submitted; a construction that records no allocation row is a violation; in sessions every cell of get_target_allocations() must follow the recorded rows (NaN where the asset was not in that rebalance's asset set)."
 ASSUMPTIONS = ['the target is the sizer\'s own output (its correctness is C10/C11)']
 
 
